@@ -99,6 +99,11 @@ func checkC13(c *Ctx) {
 		b, _ := os.ReadFile(f)
 		progs = append(progs, prog{"example:" + filepath.Base(f), string(b), exampleStdin, nil})
 	}
+	for i, p := range progs {
+		if i%(len(progs)/4+1) == 0 {
+			c.sample(map[string]interface{}{"program": p.key, "source": clip(p.src, 500), "stdin": clip(p.stdin, 60)})
+		}
+	}
 	// (a) the same program many times in ONE process
 	cases := make(chan *Case, 64)
 	go func() {
